@@ -25,6 +25,12 @@ func (s *Session) extraObligations(prop string) ([]*Obligation, error) {
 			}
 		}
 	}
+	if currentTier == "thorough" {
+		switch prop {
+		case "C01", "C03", "C04", "C07", "C12":
+			out = append(out, s.omDiffObligation(prop))
+		}
+	}
 	if prop == "C15" {
 		out = append(out, s.planSummaryObligations()...)
 	}
@@ -81,4 +87,35 @@ func (s *Session) planSummaryObligations() []*Obligation {
 		adv.Raw = fmt.Sprintf("%d of %d inputs deviate, e.g. %s", reply.Data.AdvFail, reply.Data.AdvTried, strings.Join(reply.Data.AdvEx, " | "))
 	}
 	return []*Obligation{plain, adv}
+}
+
+var currentTier = "quick"
+
+// omDiffObligation: thorough tier only, labelled BOUNDED: the assumed ordered-map model against the real library.
+func (s *Session) omDiffObligation(prop string) *Obligation {
+	ob := &Obligation{Name: "bounded:A-OM/model-vs-library", Fn: "orderedmap", Kind: "bounded", Props: []string{prop}, Backend: "bounded-differential",
+		Clause: "3000 random operation sequences (up to 14 steps, 5 keys; seed VERIF_SEED) on github.com/elliotchance/orderedmap/v3 against the list-of-pairs model assumed in externals.vc"}
+	_, raw, err := runHarnessRaw(map[string]any{"mode": "omdiff"})
+	if err != nil {
+		ob.Result, ob.Raw = "error", err.Error()
+		return ob
+	}
+	var reply struct {
+		Data struct {
+			Runs     int      `json:"runs"`
+			Steps    int      `json:"steps"`
+			Failures []string `json:"failures"`
+		} `json:"data"`
+	}
+	if e := jsonUnmarshal(raw, &reply); e != nil {
+		ob.Result, ob.Raw = "error", e.Error()
+		return ob
+	}
+	ob.Clause += fmt.Sprintf(" [%d sequences, %d steps]", reply.Data.Runs, reply.Data.Steps)
+	ob.Result = "pass"
+	if len(reply.Data.Failures) > 0 || reply.Data.Steps == 0 {
+		ob.Result = "fail"
+		ob.Raw = "the library disagrees with the assumed model (the proofs that use A-OM rest on a wrong contract): " + strings.Join(reply.Data.Failures, " | ")
+	}
+	return ob
 }
